@@ -35,6 +35,29 @@ ROR = {ast.Lt: [ast.LtE, ast.Gt], ast.LtE: [ast.Lt, ast.GtE], ast.Gt: [ast.GtE, 
        ast.In: [ast.NotIn], ast.NotIn: [ast.In], ast.Is: [ast.IsNot], ast.IsNot: [ast.Is]}
 
 
+FIELD_FAMILIES = [
+    ("reach_probability", "expected_rewards", "expected_rewards_min_reach", "expected_reach_min_rewards"),
+    ("rewards", "players", "transition_list", "final_states"),
+    ("threshold", "floor"),
+    ("seed", "width", "length", "max_reward"),
+    ("prob_loose_tile", "prob_tile_break", "prob_robot_break", "prob_light_break"),
+]
+
+
+def _fam_prefix(prefix):
+    return lambda name: prefix if name.startswith(prefix) and name != prefix else None
+
+
+NAME_FAMILIES = [
+    _fam_prefix("offset_"), _fam_prefix("prob_"), _fam_prefix("current_diff"), _fam_prefix("expected_"), _fam_prefix("n_iterations"), _fam_prefix("iterations_"),
+    lambda name: "ij" if name in ("i", "j") else None,
+    lambda name: "dims" if name in ("length", "width") else None,
+    lambda name: "strategies" if name in ("reachability_strategies", "final_strategies") else None,
+    lambda name: "minmax" if name in ("rewards_min_reach", "reach_min_rewards", "rewards", "probabilities") else None,
+    lambda name: "states" if name in ("loosing_state", "winning_state") else None,
+]
+
+
 def mutants(path):
     text = open(path).read()
     tree = ast.parse(text)
@@ -112,6 +135,29 @@ def mutants(path):
             new = copy.copy(n)
             new.args = [n.args[1], n.args[0]] + list(n.args[2:])
             yield emit("swap", n, ast.unparse(new))
+        # wrong field: a sibling attribute of the same object family
+        if isinstance(n, ast.Attribute) and not isinstance(getattr(n, "parent", None), ast.Call) or (isinstance(n, ast.Attribute) and isinstance(getattr(n, "parent", None), ast.Call) and n.parent.func is not n):
+            for fam in FIELD_FAMILIES:
+                if n.attr in fam:
+                    for other in fam:
+                        if other != n.attr:
+                            a, b = seg(n)
+                            new_src = text[a:b][:len(text[a:b]) - len(n.attr)] + other
+                            yield emit("field", n, new_src)
+        # wrong variable: another name of the same family in the same function
+        if isinstance(n, ast.Name) and isinstance(n.ctx, ast.Load):
+            fn = n
+            while fn is not None and not isinstance(fn, ast.FunctionDef):
+                fn = getattr(fn, "parent", None)
+            if fn is not None:
+                names = {x.id for x in ast.walk(fn) if isinstance(x, ast.Name)} | {a_.arg for a_ in fn.args.args}
+                for fam in NAME_FAMILIES:
+                    key = fam(n.id)
+                    if key is None:
+                        continue
+                    for other in sorted(names):
+                        if other != n.id and fam(other) == key:
+                            yield emit("name", n, other)
         if isinstance(n, ast.Return) and n.value is not None and isinstance(n.value, ast.Tuple) and len(n.value.elts) >= 2:
             new = copy.copy(n.value)
             new.elts = [n.value.elts[1], n.value.elts[0]] + list(n.value.elts[2:])
